@@ -27,9 +27,9 @@ ASSUMPTIONS = ["exact part assumes randomness enters through one random.shuffle 
                "if that pattern is not observed the exact part is skipped for that case and the statistical part decides",
                "chi-square two-stage protocol (p>=1e-4 held; escalate 4x; p<1e-6 violated) + support check"]
 HEADLINE = ["exact_cases", "exact_generations", "exact_outcomes", "exact_hook_pattern_missing", "stat_cases", "stat_generations", "chi2_tests",
-            "chi2_escalations", "two_column_cases", "network_stat_cases", "custom_cases", "nondivisible_cases", "nondivisible_rejected_by_generator"]
-REQUIRED = {"quick": {"exact_generations": 5000, "stat_generations": 20000, "two_column_cases": 5, "exact_or_stat_cases": 30},
-            "thorough": {"exact_generations": 100000, "stat_generations": 200000, "two_column_cases": 20, "exact_or_stat_cases": 300}}
+            "chi2_escalations", "two_column_cases", "network_stat_cases", "custom_cases", "nondivisible_cases", "nondivisible_rejected_by_generator", "entropy_cases", "entropy_generations", "reseed_calls_observed"]
+REQUIRED = {"quick": {"exact_generations": 5000, "stat_generations": 20000, "two_column_cases": 5, "exact_or_stat_cases": 30, "entropy_cases": 6},
+            "thorough": {"exact_generations": 100000, "stat_generations": 200000, "two_column_cases": 20, "exact_or_stat_cases": 300, "entropy_cases": 60}}
 MAX_INCONCLUSIVE_FRACTION = 0.0
 SHARD_TIMEOUT = {"quick": 600, "thorough": 7200}
 
@@ -46,6 +46,8 @@ def gen_cases(tier, seed):
                       "_cost": 1 if tier == "quick" or i % 6 else 8})
     for i in range(ns):
         cases.append({"mode": "stat", "seed": seed * 100151 + i, "R": 4000 if tier == "quick" else 20000, "_cost": 5})
+    for i in range(9 if tier == "quick" else 90):
+        cases.append({"mode": "entropy", "seed": seed * 100153 + i, "_cost": 1})
     return cases
 
 
@@ -148,9 +150,65 @@ def run_once(cfg, jds, tap):
     return rec, out
 
 
+ALL_GENERATOR_MODULES = ("fast", "custom", "network", "algbase", "factory", "main")
+
+
+def run_entropy(case, res, rng):
+    """Placement spaces far beyond enumeration (2m distinct degree-1 vertices paired into m edges: (2m-1)!! matchings).  Nothing
+    statistical can be said there from a few draws; what CAN be observed is where the randomness comes from.  Every gcmpy module on
+    the generation path gets the tap as its `random`; if the code re-seeds that source, everything it draws afterwards is a
+    function of the seed value, so at most 2**bits placements are reachable - a violation of "every placement has its probability"
+    as soon as the space is larger."""
+    m = rng.randint(13, 24)
+    N = 2 * m
+    fl = ["fast", "network", "custom"][case["seed"] % 3]
+    path = rng.choice(["direct", "main-enum", "main-str", "factory"])
+    if fl == "custom":
+        cfg = {"flavour": "custom", "motifs": [[[2], "clique", "homog"]], "sizes": [2], "indices": [[0]], "path": path, "tuple_result": True, "use_library": True}
+    else:
+        cfg = {"flavour": fl, "motifs": [["clique", 2]], "names": ["pair"], "path": path, "use_library": True}
+    jds = [(1,)] * N
+    space_bits = sum(math.log2(k) for k in range(1, 2 * m, 2))          # log2((2m-1)!!)
+    tap = RandomTap(seed=case["seed"], keep_log=False)
+    rec = gen.Recorder()
+    seen = set()
+    with installed(tap, *ALL_GENERATOR_MODULES) as inst:
+        alg, cls = gen.build_algorithm(cfg, rec)
+        for _ in range(6):
+            out = sut(f"{cls.__name__}.random_clustered_graph", alg.random_clustered_graph, list(jds))
+            res.count("entropy_generations")
+            pairs = [tuple(sorted(e)) for e in (out.G.edges() if fl == "network" else out.edge_list)]
+            ends = Counter(v for e in pairs for v in e)
+            loops = sum(1 for a, b in pairs if a == b)
+            if fl != "network" and (len(pairs) != m or any(ends[v] != 1 for v in range(N))):
+                res.violate("placement-is-not-a-perfect-matching-of-the-stubs", pairs=pairs[:10], cfg=cfg); return
+            seen.add(tuple(sorted(pairs)))
+    res.count("entropy_cases")
+    res.count("tap_bindings", sum(inst.bound.values()))
+    ctx = {"cfg": cfg, "vertices": N, "log2_placements": round(space_bits, 1), "mode": "entropy"}
+    if tap.reseeds:
+        res.count("reseed_calls_observed", len(tap.reseeds))
+        known = [r["bits"] for r in tap.reseeds if r["bits"] is not None]
+        if known and len(known) == len(tap.reseeds):
+            bits = max(known)
+            if space_bits > bits + 1:
+                res.violate("generator-reseeds-its-random-source-with-fewer-bits-than-the-placement-space-needs", seed_bits=bits,
+                            reseeds=tap.reseeds[:4], note="after the re-seed every draw is a function of the seed value: at most 2**%d of the 2**%.1f equally likely placements can occur" % (bits, space_bits),
+                            ctx=ctx)
+                return
+    if len(seen) < 6:
+        res.violate("the-same-placement-drawn-twice-in-six-draws-from-a-space-of-2**%d" % int(space_bits), distinct=len(seen), ctx=ctx); return
+    res.nontrivial = True
+    res.sample = ctx
+    res.digest = digest([cfg, N, case["seed"]])
+
+
 def run_case(case):
     res = Result()
     rng = random.Random(case["seed"])
+    if case["mode"] == "entropy":
+        run_entropy(case, res, rng)
+        return res
     if case["mode"] == "exact":
         cfg, jds, n_c = make_small(rng, case["limit"])
     else:
